@@ -378,6 +378,13 @@ class Parser:
                 c = self.parse_expr(nostruct=True)
                 body = self.parse_block()
                 stmts.append(N("while", t.pos, body.end, cond=c, body=body)); continue
+            if t.kind == "id" and t.text == "unsafe" and self.at("{", 1):
+                # the only `unsafe` in the subset: `unsafe { v.set_len(n); }` (one or more such calls), spliced as statements
+                self.next(); blk = self.parse_block()
+                ok = blk.tail is None and blk.stmts and all(x.kind == "semi" and x.e.kind == "mcall" and x.e.name == "set_len" and len(x.e.args) == 1
+                                                           and x.e.recv.kind == "path" and len(x.e.recv.segs) == 1 for x in blk.stmts)
+                if not ok: raise self.fail(t, "`unsafe` is outside the subset (only `unsafe { v.set_len(n); }` is read)")
+                stmts.extend(blk.stmts); continue
             if t.kind == "id" and t.text in ("unsafe", "fn", "struct", "impl", "use", "const", "static"):
                 raise self.fail(t, f"`{t.text}` is outside the subset")
             e = self.parse_expr(stmt=True)
@@ -443,6 +450,9 @@ class Parser:
             return N("un", t.pos, e.end, op=t.text, e=e)
         if t.kind == "p" and t.text in ("&", "*"):
             self.next()
+            if self.at("mut") and t.text == "&":
+                self.next(); e = self.parse_unary_operand(nostruct)
+                return N("refmut", t.pos, e.end, e=e)
             if self.at("mut"): raise self.fail(self.peek(), "`&mut` is outside the subset")
             e = self.parse_unary_operand(nostruct)
             return N("ref", t.pos, e.end, e=e)
@@ -501,7 +511,8 @@ class Parser:
         t = self.peek()
         if t.kind in ("float", "int"):
             self.next(); return N("lit", t.pos, t.end, text=t.text, isf=(t.kind == "float"), suffix=t.suffix)
-        if t.kind == "str": raise self.fail(t, "string outside a macro")
+        if t.kind == "str":
+            self.next(); return N("str", t.pos, t.end)
         if t.kind == "p" and t.text == "(":
             self.next()
             if self.at(")"): raise self.fail(t, "unit value is outside the subset")
@@ -898,6 +909,8 @@ class Translator:
         if k in ("assert", "panic"): raise self.fail(e, "panic inside an expression")
         if k == "closure": raise self.fail(e, "closure outside `.map(..)`")
         if k == "struct": raise self.fail(e, "struct literal outside the tail of a constructor")
+        if k == "str": raise self.fail(e, "string outside a macro")
+        if k == "refmut": raise self.fail(e, "`&mut` is outside the subset")
         raise self.fail(e, f"unsupported expression ({k})")
 
     def value_block(self, b, env):
@@ -1288,6 +1301,7 @@ LOOP_RESERVED = {
     "rs_panic", "rs_loop", "rs_iter_product", "rs_f64_nan", "rs_f64_max", "rs_f64_min", "rs_f64_infinity", "rs_f64_neg_infinity",
     "fold_left", "combine", "rev", "length", "bind", "fst", "snd", "nth_error", "repeat", "tt", "app", "unit", "firstn", "skipn",
     "upd", "guard", "map2", "pair", "nil", "cons",
+    "rs_set_len", "rs_swap", "rs_f64_epsilon", "rs_while", "rs_repeat", "uninit_", "fuel_", "Some", "None", "option",
 }
 
 
@@ -1317,12 +1331,16 @@ class Ctx:
     def fall(self, env, val, where):
         if self.kind == "fn":
             return self.result(env, val, where)
+        if self.kind == "while":
+            if val is not None and val[1] != "unit": raise self.tr.fail(where, "a value at the end of a loop body")
+            return f"Some (inl {self.pack(env)})"
         if val is not None and val[1] != "unit": raise self.tr.fail(where, "a value at the end of a loop body / statement branch")
         s = self.pack(env)
         return {"pure": s, "opt": f"Some {s}", "flow": f"rs_next {s}"}[self.mode]
 
     def ret(self, env, val, where):
         if self.kind == "fn": return self.result(env, val, where)
+        if self.kind == "while": raise self.tr.fail(where, "`return` inside a data-driven `while` is outside the subset")
         if self.kind == "loop" and self.mode == "flow":
             if val is None: raise self.tr.fail(where, "`return` without a value inside a loop")
             self.tr.ret_seen(val[1], where)
@@ -1330,12 +1348,13 @@ class Ctx:
         raise NeedMode("flow")
 
     def brk(self, env, where):
+        if self.kind == "while": return f"Some (inr {self.pack(env)})"
         if self.kind == "loop" and self.mode == "flow": return f"rs_break {self.pack(env)}"
         if self.kind == "fn": raise self.tr.fail(where, "`break` outside a loop")
         raise NeedMode("flow")
 
     def cont(self, env, where):
-        if self.kind == "loop": return self.fall(env, None, where)
+        if self.kind in ("loop", "while"): return self.fall(env, None, where)
         if self.kind == "fn": raise self.tr.fail(where, "`continue` outside a loop")
         raise NeedMode("flow")
 
@@ -1366,6 +1385,8 @@ class LoopTranslator(Translator):
         self.gensym = 0
         self.idents = set()
         if not hasattr(self.cfg, "defs"): self.cfg.defs = {}
+        self.cfg.calls.setdefault("<uninit>", ("uninit_", ["i"], "f"))      # see `.set_len`
+        self.cfg.calls.setdefault("<fuel>", ("fuel_", [], "nat"))            # see `fuel_while`
 
     # ---- types
     def cty(self, t):
@@ -1373,10 +1394,14 @@ class LoopTranslator(Translator):
         if is_int(t): return "Z"
         if t == "b": return "bool"
         if t == "unit": return "unit"
+        if t == "nat": return "nat"
+        if t[0] == "struct": return "(" + " * ".join(self.cty_a(ft) for _, ft in self.cfg.struct_fields[t[1]]) + ")"
         if t[0] == "list": return f"list {self.cty_a(t[1])}"
         if t[0] == "tup": return "(" + " * ".join(self.cty_a(x) for x in t[1]) + ")"
         if t[0] == "fn": return " -> ".join(self.cty_a(x) for x in list(t[1]) + [t[2]])
-        if t[0] == "opt": return f"option {self.cty_a(t[1])}"
+        if t[0] == "opt":
+            if t[1] is None: raise Unsupported("an Option whose payload type is never determined (`None` only)")
+            return f"option {self.cty_a(t[1])}"
         raise Unsupported(f"internal: type {t!r}")
 
     def cty_a(self, t):
@@ -1398,7 +1423,7 @@ class LoopTranslator(Translator):
         if m: return ("list", self.ty_of_rust(m.group(1), node))
         m = re.fullmatch(r"\[(.*);\w+\]", ty)
         if m: return ("list", self.ty_of_rust(m.group(1), node))
-        m = re.fullmatch(r"Option<(.*)>", ty)
+        m = re.fullmatch(r"Option<(.*)>", ty) or re.fullmatch(r"Result<(.*),String>", ty)
         if m: return ("opt", self.ty_of_rust(m.group(1), node))
         if ty.startswith("(") and ty.endswith(")"):
             parts, depth, cur = [], 0, ""
@@ -1450,11 +1475,21 @@ class LoopTranslator(Translator):
     def pattern(self, pat, t, env, where, fun=False):
         """Gallina pattern for a Rust pattern of type t; binds the names in env"""
         if pat[0] == "wild": return "_"
+        if pat[0] == "var" and t[0] == "struct":
+            return self.bind_struct(pat[1], t, env)
         if pat[0] == "var":
             nm = self.ident(pat[1], env, pat[1]); env[pat[1]] = (nm, t); return nm
         if t[0] != "tup" or len(t[1]) != len(pat[1]): raise self.fail(where, "tuple pattern against a value of another shape")
         inner = ", ".join(self.pattern_inner(q, tt, env, where) for q, tt in zip(pat[1], t[1]))
         return f"'({inner})"
+
+    def bind_struct(self, name, t, env):
+        """a struct-typed variable is kept as one Gallina variable per field: `'(m_nrows, m_ncols, m_data)`"""
+        parts = []
+        for f, ft in self.cfg.struct_fields[t[1]]:
+            nm = self.ident(name + "_" + f, env, name + "." + f); env[name + "." + f] = (nm, ft); parts.append(nm)
+        env[name] = ("<struct>", t)
+        return "'(" + ", ".join(parts) + ")"
 
     def pattern_inner(self, pat, t, env, where):
         s = self.pattern(pat, t, env, where)
@@ -1475,6 +1510,8 @@ class LoopTranslator(Translator):
                 key = "self." + e.name
                 if key not in env: raise self.fail(e, f"`self.{e.name}` is not a field the translator models")
                 return env[key]
+            if e.recv.kind == "path" and len(e.recv.segs) == 1 and (e.recv.segs[0] + "." + e.name) in env:
+                return env[e.recv.segs[0] + "." + e.name]      # a struct-typed local / parameter is kept as its fields
             raise self.fail(e, "field access on something other than `self`")
         if k == "un":
             s, t = self.expr(e.e, env)
@@ -1494,6 +1531,10 @@ class LoopTranslator(Translator):
                     note = "integer-to-integer `as` casts are the identity on Z (no wrap-around)"
                     if note not in self.notes: self.notes.append(note)
                     return s, ("si" if e.ty in ("i32", "i64", "isize", "i16", "i8", "i128") else "i")
+                if t == "f" and e.ty in ("usize", "u64") and getattr(self.cfg, "float_to_usize", False):
+                    note = "R4: `x as usize` for an f64 x is Z.max 0 (truncZ O x): truncation toward zero, negative values and NaN give 0 (the saturation at usize::MAX is not modelled)"
+                    if note not in self.notes: self.notes.append(note)
+                    return f"Z.max (0%Z) (truncZ O ({s}))", "i"
                 if t == "f": raise self.fail(e, "float-to-integer cast is outside the subset")
             raise self.fail(e, f"cast to `{e.ty}` is outside the subset")
         if k == "bin": return self.binop(e, env)
@@ -1554,6 +1595,8 @@ class LoopTranslator(Translator):
         if k in ("assert", "panic"): raise self.fail(e, "panic inside an expression")
         if k == "closure": raise self.fail(e, "closure outside `.map(..)` / `.fold(..)`")
         if k == "struct": raise self.fail(e, "struct literal is outside the subset")
+        if k == "str": raise self.fail(e, "string outside a macro")
+        if k == "refmut": raise self.fail(e, "`&mut` is outside the subset")
         raise self.fail(e, f"unsupported expression ({k})")
 
     @staticmethod
@@ -1561,6 +1604,7 @@ class LoopTranslator(Translator):
         if is_int(a) and is_int(b): return True
         if isinstance(a, tuple) and isinstance(b, tuple) and a[0] == b[0]:
             if a[0] == "tup": return len(a[1]) == len(b[1]) and all(LoopTranslator.same_type(x, y) for x, y in zip(a[1], b[1]))
+            if a[0] == "opt" and (a[1] is None or b[1] is None): return True
             if a[0] in ("list", "opt"): return LoopTranslator.same_type(a[1], b[1])
         return a == b
 
@@ -1598,10 +1642,17 @@ class LoopTranslator(Translator):
 
     def path(self, e, env):
         segs = e.segs
-        if len(segs) == 1 and segs[0] in env: return env[segs[0]]
+        if len(segs) == 1 and segs[0] in env:
+            nm, t = env[segs[0]]
+            if nm == "<struct>":
+                return "(" + ", ".join(env[segs[0] + "." + f][0] for f, _ in self.cfg.struct_fields[t[1]]) + ")", t
+            return env[segs[0]]
         name = segs[-1]
         if segs == ["self"] and getattr(self, "result_mode", "value") == "fields": return "tt", "unit"     # `self` as the value of a `&mut self` method
         if len(segs) == 1 and name in self.cfg.consts: return self.cfg.consts[name], "f"
+        if segs == ["None"]: return "None", ("opt", None)
+        if segs in (["true"], ["false"]): return segs[0], "b"
+        if segs[-2:] in (["f64", "EPSILON"],): return "rs_f64_epsilon O", "f"
         if segs[-2:] in (["f64", "NAN"],): return "rs_f64_nan O", "f"
         if segs[-2:] in (["f64", "MAX"],): return "rs_f64_max O", "f"
         if segs[-2:] in (["f64", "MIN"],): return "rs_f64_min O", "f"
@@ -1661,6 +1712,10 @@ class LoopTranslator(Translator):
         raise self.fail(e, f"operands of `{op}` have different or non-numeric types")
 
     def index(self, e, env):
+        rv = self.strip(e.recv)
+        if rv.kind == "path" and rv.segs == ["self"]:
+            if "self.index" not in self.cfg.defs or e.idx.kind in ("range", "array"): raise self.fail(e, "`self[..]` is only supported as `self[i]` through a translated `Index<usize>::index`")
+            return self.apply(e, "self.index", [e.idx], env)
         r, tr = self.expr(e.recv, env)
         if tr[0] != "list": raise self.fail(e, "indexing something that is not a slice / Vec")
         ix = self.strip(e.idx) if e.idx.kind in ("paren",) else e.idx
@@ -1754,8 +1809,18 @@ class LoopTranslator(Translator):
             l, t = self.iter_of(e, env)
             return l, ("list", t)
         r, tr = self.expr(e.recv, env)
+        if tr[0] == "opt" and ((name == "unwrap" and not args) or (name == "expect" and len(args) == 1 and self.strip(args[0]).kind == "str")):
+            # `None` / `Err(_)` panics
+            if tr[1] is None: raise self.fail(e, "`.unwrap()` of a bare `None`")
+            return self.hoist(r, "u"), tr[1]
         if tr[0] == "opt" and name in ("is_none", "is_some") and not args:
             return f"(match {r} with Some _ => {'false' if name == 'is_none' else 'true'} | None => {'true' if name == 'is_none' else 'false'} end)", "b"
+        if tr[0] == "list" and name == "repeat" and len(args) == 1:
+            a, ta = self.expr(args[0], env)
+            if not is_int(ta): raise self.fail(e, "`.repeat(n)`: an integer count expected")
+            note = "`v.repeat(n)` is rs_repeat v n = n copies of v one after the other (the capacity overflow of the result is not modelled)"
+            if note not in self.notes: self.notes.append(note)
+            return f"rs_repeat ({r}) ({a})", tr
         if name in ("min", "max") and len(args) == 1:
             a, ta = self.expr(args[0], env)
             if tr == "f" and ta == "f": return f"f{name} O ({r}) ({a})", "f"
@@ -1818,6 +1883,7 @@ class LoopTranslator(Translator):
             if cq not in self.used_calls: self.used_calls.append(cq)
             s = f"{cq} " + " ".join(self.args_of(e, args, argt))
             if rt[0] == "opt": return self.hoist(f"({s})", "r"), rt[1]
+            if rt[0] == "optval": return f"({s})", ("opt", rt[1])      # returns an Option / Result VALUE (the function itself does not panic)
             return f"({s})", rt
         return None
 
@@ -1834,7 +1900,19 @@ class LoopTranslator(Translator):
         if name in ("Vec::with_capacity", "Vector::with_capacity") and len(args) == 1:
             self.expr(args[0], env)
             return "[]", ("list", "f")
-        if name in ("Vec::new", "Vector::new") and not args: return "[]", ("list", "f")
+        if name in ("Vec::new", "Vector::new", "Vector::empty") and not args: return "[]", ("list", "f")
+        if name == "Vector::new" and len(args) == 1:      # the newtype around Vec<f64>
+            l, t = self.expr(args[0], env)
+            if t != ("list", "f"): raise self.fail(e, "`Vector::new(v)`: a Vec<f64> expected")
+            return l, t
+        if name in ("Some", "Ok") and len(args) == 1:
+            a, ta = self.expr(args[0], env)
+            return f"Some ({a})", ("opt", ta)
+        if name == "Err" and len(args) == 1: return "None", ("opt", None)      # the error value is not modelled: only `.unwrap()` looks at it
+        if name in ("cmp::min", "cmp::max", "std::cmp::min", "std::cmp::max") and len(args) == 2:
+            a, ta = self.expr(args[0], env); b, tb = self.expr(args[1], env)
+            if not (is_int(ta) and is_int(tb)): raise self.fail(e, "integer arguments expected")
+            return f"Z.{e.path[-1]} ({a}) ({b})", int_join(ta, tb)
         if name in ("Vector::ones", "Vector::zeros") and len(args) == 1:
             n, tn = self.expr(args[0], env)
             if not is_int(tn): raise self.fail(e, "integer length expected")
@@ -1857,9 +1935,15 @@ class LoopTranslator(Translator):
         while t.kind in ("paren", "ref", "index"): t = t.e if t.kind in ("paren", "ref") else t.recv
         if t.kind == "path" and len(t.segs) == 1: return t.segs[0]
         if t.kind == "field" and t.recv.kind == "path" and t.recv.segs == ["self"]: return "self." + t.name
+        if t.kind == "field" and t.recv.kind == "path" and len(t.recv.segs) == 1: return t.recv.segs[0] + "." + t.name
         return None
 
-    MUTATORS = ("push", "extend", "reverse", "extend_from_slice")
+    MUTATORS = ("push", "extend", "reverse", "extend_from_slice", "set_len", "swap")
+
+    @staticmethod
+    def is_mem_swap(e):
+        return (e.kind == "call" and e.path in (["swap"], ["mem", "swap"], ["std", "mem", "swap"]) and len(e.args) == 2
+                and all(a.kind == "refmut" for a in e.args))
 
     def assigned(self, node, local):
         """Rust variables (declared outside `node`) that `node` assigns"""
@@ -1893,6 +1977,10 @@ class LoopTranslator(Translator):
             if e.kind == "mcall" and e.name in self.MUTATORS:
                 v = self.root_var(e.recv)
                 if v is not None and v not in local: add(v)
+            if self.is_mem_swap(e):
+                for a in e.args:
+                    v = self.root_var(a.e)
+                    if v is not None and v not in local: add(v)
             if e.kind in ("paren", "ref"): walk_expr(e.e, local)
         if node.kind == "block": walk_block(node, set(local))
         else: walk_expr(node, set(local))
@@ -1901,6 +1989,7 @@ class LoopTranslator(Translator):
     def ret_seen(self, t, where):
         if self.ret_type is None: self.ret_type = t
         elif not self.same_type(self.ret_type, t): raise self.fail(where, "results of different types")
+        elif self.ret_type[0] == "opt" and self.ret_type[1] is None: self.ret_type = t
 
     # ---- statements
     def with_modes(self, modes, thunk):
@@ -1929,6 +2018,9 @@ class LoopTranslator(Translator):
     def seq(self, stmts, tail, env, K, where):
         if not stmts:
             if tail is None: return K.fall(env, None, where)
+            if tail.kind == "mcall" and tail.name in self.MUTATORS and self.root_var(tail.recv) in env:
+                # `{ ..; v.swap(a, b) }`: a unit-valued mutation in tail position is a statement
+                return self.seq([N("semi", tail.pos, tail.end, e=tail)], None, env, K, where)
             return self.tail(tail, env, K)
         s, rest = stmts[0], stmts[1:]
         go = lambda env2: self.seq(rest, tail, env2, K, where)
@@ -1968,6 +2060,14 @@ class LoopTranslator(Translator):
         if e.kind in ("if", "iflet", "block"):
             return self.stmt_if(e, rest, tail, env, K, where)
         if e.kind == "match": raise self.fail(e, "`match` is outside the subset")
+        if self.is_mem_swap(e):
+            # `swap(&mut a, &mut b)` (std::mem::swap) of two variables / fields of the same type
+            va, vb = self.root_var(e.args[0].e), self.root_var(e.args[1].e)
+            if va is None or vb is None or va not in env or vb not in env or va == vb or any(self.strip(a.e).kind not in ("path", "field") for a in e.args):
+                raise self.fail(e, "`swap(&mut a, &mut b)`: two distinct variables / fields expected")
+            (na, ta), (nb, tb) = env[va], env[vb]
+            if not self.same_type(ta, tb) or na == "<struct>": raise self.fail(e, "`swap`: values of one (non-struct) type expected")
+            return f"let '({na}, {nb}) := ({nb}, {na}) in " + go(env)
         if e.kind == "mcall" and e.name in self.MUTATORS:
             v = self.root_var(e.recv)
             if v is None or v not in env or self.strip(e.recv).kind not in ("path", "field"): raise self.fail(e, "mutation of something other than a local Vec")
@@ -1975,7 +2075,21 @@ class LoopTranslator(Translator):
             if t[0] != "list": raise self.fail(e, f"`.{e.name}` on a non-Vec")
             def render():
                 if e.name == "reverse" and not e.args: return f"rev ({nm})"
+                if e.name == "swap":
+                    # `v.swap(a, b)`: both positions must exist
+                    if len(e.args) != 2: raise self.fail(e, "two arguments expected")
+                    a, ta = self.expr(e.args[0], env); b, tb = self.expr(e.args[1], env)
+                    if not (is_int(ta) and is_int(tb)): raise self.fail(e, "`.swap`: integer positions expected")
+                    return self.hoist(f"rs_swap ({nm}) ({a}) ({b})", "l")
                 if len(e.args) != 1: raise self.fail(e, "one argument expected")
+                if e.name == "set_len":
+                    # `unsafe { v.set_len(n) }`: the new cells hold whatever the allocation held: the abstract parameter uninit_
+                    n, tn = self.expr(e.args[0], env)
+                    if not is_int(tn) or t[1] != "f": raise self.fail(e, "`.set_len(n)` of a Vec<f64> with an integer n expected")
+                    if "uninit_" not in self.used_calls: self.used_calls.append("uninit_")
+                    note = "`Vec::with_capacity(n)` + `unsafe { v.set_len(n) }`: cell i of the uninitialised part is uninit_ i, an arbitrary function (the ties hold for every uninit_)"
+                    if note not in self.notes: self.notes.append(note)
+                    return f"rs_set_len ({nm}) ({n}) uninit_"
                 if e.name == "push":
                     a, ta = self.expr(e.args[0], env)
                     if not self.same_type(ta, t[1]): raise self.fail(e, "pushed value of the wrong type")
@@ -2168,6 +2282,37 @@ class LoopTranslator(Translator):
         return self.flush(bs, body, K)
 
     def while_loop(self, s, env, K, go):
+        if not getattr(self.cfg, "fuel_while", False): return self.counted_while(s, env, K, go)
+        g, nb, uc, rt = self.gensym, [list(b) for b in self.binds], list(self.used_calls), self.ret_type
+        try: return self.counted_while(s, env, K, go)
+        except Unsupported:
+            self.gensym, self.binds, self.used_calls, self.ret_type = g, nb, uc, rt
+            return self.fuel_while(s, env, K, go)
+
+    def fuel_while(self, s, env, K, go):
+        """R3 (targets that set cfg.fuel_while): a `while c { body }` whose condition depends on the data is
+           rs_while fuel_ (fun state => if c then <body; Some (inl state')> else Some (inr state)) state: at most fuel_ passes,
+           None for a panic AND for running out of fuel (fuel_ is a parameter of the generated function)"""
+        if K.mode in ("total", "pure"): raise NeedMode("opt")
+        M = self.loop_state(s.body, env)
+        if not M: raise self.fail(s, "a `while` whose body assigns nothing")
+        if "fuel_" not in self.used_calls: self.used_calls.append("fuel_")
+        note = "R3: a data-driven `while c { .. }` is rs_while fuel_ ..: at most fuel_ passes, running out of fuel is None like a panic (fuel_ is a parameter of the generated function)"
+        if note not in self.notes: self.notes.append(note)
+        names = [env[m][0] for m in M]
+        sv = names[0] if len(M) == 1 else "(" + ", ".join(names) + ")"
+        sp = names[0] if len(M) == 1 else "'(" + ", ".join(names) + ")"
+        C = Ctx(self, "while", "opt", M)
+        def render():
+            c, tc = self.expr(s.cond, env)
+            if tc != "b": raise self.fail(s.cond, "condition is not a boolean")
+            body = self.seq(s.body.stmts, s.body.tail, dict(env), C, s.body)
+            return f"if {c} then {body} else Some (inr {sv})"
+        step, bs = self.scoped(render)
+        step = self.flush(bs, step, C)
+        return K.bind(sp, f"rs_while fuel_ (fun {sp} => {step}) {sv}", go(env))
+
+    def counted_while(self, s, env, K, go):
         """R2: `while i < b { ..; i += 1; }` with an integer counter i that the body only changes by its last statement and a
            bound b the body does not change is the loop `for i in i..b { ..; i += 1 }` (i stays part of the state)"""
         bad = "`while` is only supported with an explicit integer counter: `while i < bound { ..; i += 1; }`"
@@ -2237,9 +2382,11 @@ class LoopTranslator(Translator):
                     if self_fields is not None: raise
                     continue
                 nm = self.ident(f); env["self." + f] = (nm, t); binders.append((nm, t)); fields.append("self." + f)
+        prefix = ""
         for p, ty, tok in fn.params:
             t = self.ty_of_rust(ty, tok); nm = self.ident(p, env, p)
             env[p] = (nm, t); binders.append((nm, t))
+            if t[0] == "struct": prefix += f"let {self.bind_struct(p, t, env)} := {nm} in "
         def result_of(envr, val, where):
             if result == "fields":
                 s = "(" + ", ".join(envr[f][0] for f in fields) + ")" if len(fields) != 1 else envr[fields[0]][0]
@@ -2252,6 +2399,7 @@ class LoopTranslator(Translator):
             K = Ctx(self, "fn", m, result=lambda envr, val, where: (f"Some ({result_of(envr, val, where)})" if m == "opt" else result_of(envr, val, where)))
             return self.seq(fn.body.stmts, fn.body.tail, env, K, fn.body)
         m, body = self.with_modes(["total", "opt"], render)
+        body = prefix + body
         self.partial = (m == "opt")
         if fn.ret is not None and result == "value":
             rt = fn.ret.replace(" ", "")
@@ -2261,7 +2409,7 @@ class LoopTranslator(Translator):
         callb = []
         for cq, argt, rt in list(self.cfg.calls.values()):
             if cq in self.used_calls and cq not in [c for c, _ in callb]:
-                callb.append((cq, " -> ".join(self.cty_a(a) for a in list(argt) + [rt])))
+                callb.append((cq, " -> ".join(self.cty_a(a) for a in list(argt) + [("opt", rt[1]) if rt[0] == "optval" else rt])))
         pre = "{T : Type} (O : Ops T)" + "".join(f" ({c} : {ty})" for c, ty in callb)
         sig = pre + "".join(f" ({b} : {self.cty(t)})" for b, t in binders)
         rty = self.cty(self.ret_type)
@@ -2347,10 +2495,12 @@ Local Open Scope list_scope.
 """
 
 
-def loops_header(tool, sources):
+def loops_header(tool, sources, mut=False):
+    """mut: the target uses the combinators of Base/RsExprMut.v (swap, set_len, EPSILON, data-driven while)"""
+    prelude = LOOPS_PRELUDE.replace("Base.RsExpr.", "Base.RsExpr Base.RsExprMut.") if mut else LOOPS_PRELUDE
     return (f"(* GENERATED by {tool} (statement-level translator, LoopTranslator of tools/rsexpr.py) from {', '.join(sources)}. Do not edit.\n"
             "   Each definition is the body of the Rust function of the same name, statement for statement: slices are lists, indices\n"
-            "   and lengths are in Z, a panic (assert!, out-of-bounds index, zero divisor) is None, loops are folds over lists. *)\n" + LOOPS_PRELUDE)
+            "   and lengths are in Z, a panic (assert!, out-of-bounds index, zero divisor) is None, loops are folds over lists. *)\n" + prelude)
 
 
 PRELUDE = """From Coq Require Import ZArith QArith Floats List Bool.
@@ -2443,7 +2593,38 @@ _LPOS = [   # statement-level translator (LoopTranslator): (Rust, expected Galli
     ('fn f(t: (usize, f64)) -> f64 { let (mut c, m) = t; c += 1; m / c as f64 }',
      "let '(c, m) := t in let c := Z.add (c) (1%Z) in div O (m) (ofZ O (c))"),
 ]
+_LPOS += [  # in-place mutation, Option / Result values, std helpers (added for the linear-algebra and Matrix targets)
+    ('fn f(n: usize) -> Vec<f64> { let mut x = Vec::with_capacity(n); unsafe { x.set_len(n); } for i in 0..n { x[i] = 1.; } x }',
+     'let x := [] in let x := rs_set_len (x) (n) uninit_ in let* x := rs_fold_opt (fun x i => let* l1 := rs_set (x) (i) (one O) in let x := l1 in Some x) (rs_range_excl (0%Z) (n)) x in Some (x)'),
+    ('fn f(v: &[f64]) -> Vec<f64> { let mut w = v.to_vec(); w.swap(0, 1); w }',
+     'let w := v in let* l1 := rs_swap (w) (0%Z) (1%Z) in let w := l1 in Some (w)'),
+    ('fn f(x: f64) -> Option<f64> { if x < 0. { return None; } Some(x.sqrt()) }',
+     'if ltb O (x) (zero O) then None else Some (sqrt O (x))'),
+    ('fn f(x: Option<f64>) -> f64 { x.expect("no value") + 1. }',
+     'let* u1 := x in Some (add O (u1) (one O))'),
+    ('fn f(a: usize, b: usize) -> usize { cmp::min(a, b) }', 'Z.min (a) (b)'),
+    ('fn f(x: f64) -> bool { if x > f64::EPSILON { return false; } true }',
+     'if ltb O (rs_f64_epsilon O) (x) then false else true'),
+    ('fn f(a: usize, b: usize) -> usize { let mut x = a; let mut y = b; swap(&mut x, &mut y); x }',
+     "let x := a in let y := b in let '(x, y) := (y, x) in x"),
+    ('fn f(v: &[f64], n: usize) -> Vec<f64> { v.repeat(n) }', 'rs_repeat (v) (n)'),
+]
+_LPOS_CFG = [   # renderings a target has to opt into: (Rust, expected Gallina body, Config attributes)
+    ('fn f(p: &[i32], i: usize) -> usize { let mut k = 0; let mut j = i; while p[j] != j as i32 { j = p[j] as usize; k += 1; } k }',
+     "let k := 0%Z in let j := i in let* (k, j) := rs_while fuel_ (fun '(k, j) => let* g1 := rs_get (p) (j) in if negb (Z.eqb (g1) (j)) then let* g2 := rs_get (p) (j) in let j := g2 in let k := Z.add (k) (1%Z) in Some (inl (k, j)) else Some (inr (k, j))) (k, j) in Some (k)",
+     {"fuel_while": True}),
+    ('fn f(x: f64) -> usize { x.ceil() as usize }', 'Z.max (0%Z) (truncZ O (f1 O Ceil (x)))', {"float_to_usize": True}),
+    ('fn f(m: Mat) -> usize { let mut t = m; t.r = t.r + m.c; t.r }',
+     "let '(m_r, m_c) := m in let '(t_r, t_c) := (m_r, m_c) in let t_r := Z.add (t_r) (m_c) in t_r",
+     {"struct_fields": {"Mat": [("r", "i"), ("c", "i")]}, "param_types": {"Mat": ("struct", "Mat")}}),
+]
 _LNEG = [   # (Rust, fragment the refusal must mention)
+    ('fn f(n: usize) -> Vec<f64> { let mut x = Vec::with_capacity(n); unsafe { x.set_len(n); x.push(1.); } x }', '`unsafe`'),
+    ('fn f(x: &[f64]) -> f64 { let y = &mut x; 0. }', '`&mut`'),
+    ('fn f(x: f64) -> usize { x as usize }', 'float-to-integer cast'),
+    ('fn f(x: f64) -> f64 { let s = "a"; x }', 'string outside a macro'),
+    ('fn f(x: &[f64]) -> f64 { let mut s = 0.; let mut i = 0; while x[i] > 0. { s += x[i]; i += 1; } s }', 'explicit integer counter'),
+    ('fn f(x: Option<f64>) -> f64 { None.unwrap() }', 'bare `None`'),
     ('fn f(x: &[f64]) -> f64 { let mut k = 5; k -= 1; x[k] }', 'signedness is not known'),
     ('fn f(x: &[f64]) -> f64 { let mut s = 0.; for v in x.iter() { s += v; let s = 1.; } s }', 'shadows `s`'),
     ('fn f(x: &[f64]) -> f64 { let mut s = 0.; let mut i = 0; while s < 1. { s += x[i]; i += 1; } s }', 'explicit integer counter'),
@@ -2485,6 +2666,12 @@ def selftest():
     for rust, want in _LPOS:
         got = LoopTranslator(Module("selftest.rs", rust), Config()).function(None, "f", "f").text.split(":=\n  ", 1)[1].rstrip(".")
         if got != want: raise Unsupported(f"rsexpr self-test (loops): `{rust}` rendered as `{got}`, expected `{want}`")
+    for rust, want, attrs in _LPOS_CFG:
+        cfg = Config(param_types=attrs.get("param_types"))
+        for k, v in attrs.items():
+            if k != "param_types": setattr(cfg, k, v)
+        got = LoopTranslator(Module("selftest.rs", rust), cfg).function(None, "f", "f").text.split(":=\n  ", 1)[1].rstrip(".")
+        if got != want: raise Unsupported(f"rsexpr self-test (loops): `{rust}` rendered as `{got}`, expected `{want}`")
     for rust, frag in _LNEG:
         try:
             LoopTranslator(Module("selftest.rs", rust), Config()).function(None, "f", "f")
@@ -2493,7 +2680,7 @@ def selftest():
                 raise Unsupported(f"rsexpr self-test (loops): `{rust}` was refused with an unexpected message: {ex}")
             continue
         raise Unsupported(f"rsexpr self-test (loops): `{rust}` is outside the subset but was translated")
-    return len(_POS) + len(_POS_SELF) + len(_NEG) + len(_LPOS) + len(_LNEG)
+    return len(_POS) + len(_POS_SELF) + len(_NEG) + len(_LPOS) + len(_LPOS_CFG) + len(_LNEG)
 
 
 
